@@ -1178,8 +1178,8 @@ class PDSLabelEncoder(ODLEncoder):
                         ):
                             return False
 
-        # Item 2, no repeated keys:
-        keys = list(group.keys())
+        # Item 2, no repeated keys (they are written in upper case):
+        keys = list(str(k).upper() for k in group.keys())
         if len(keys) != len(set(keys)):
             return False
 
